@@ -341,3 +341,10 @@ ben('C04', P, "        for s in range(len(self)-1, -1, -1):\n            segment
 brk('C16', P, "            new_cub._length_info = dict(self._length_info)\n            new_cub._length_info['bpoints'] = (\n                self.end, self.control2, self.control1, self.start)", "            new_cub._length_info = dict(self._length_info, error=LENGTH_ERROR, min_depth=LENGTH_MIN_DEPTH)\n            new_cub._length_info['bpoints'] = (\n                self.end, self.control2, self.control1, self.start)", 'reversed copy claims default tolerances for a loosely measured length')
 brk('C16', P, "        return self.bpoints()[item]\n\n    def __len__(self):\n        return 4", "        return (self._length_info['bpoints'] or self.bpoints())[item]\n\n    def __len__(self):\n        return 4", 'CubicBezier indexing reads the control points remembered by length()')
 brk('C12', B, "    return max(0, min(b, d) - max(a, c))", "    w = min(b, d) - max(a, c)\n    return 0 if w <= 1e-12*max(abs(a), abs(b), abs(c), abs(d)) else w", 'interval overlap with a tolerance relative to the coordinates')
+
+# ---------------------------------------------------------------- round 8
+brk('C03', P, "            return 2*(p[2] - 2*p[1] + p[0])", "            return 2*np.poly1d([p[0] - 2*p[1] + p[2], 2*(p[1] - p[0]), p[0]]).coeffs[0]", 'second derivative read off the first entry of a poly1d coefficient array (leading zeros are stripped)')
+brk('C02', P, "                for arc_args in ARC_ARGS_RE.finditer(x):", "                for arc_args in ARC_ARGS_RE.finditer(x.strip() if x[:1] != ' ' else ''):", 'arc operands after a blank are not tokenised as arcs')
+brk('C19', 'polytools.py', "    roots = np.roots(p)", "    if len(p) < 2:\n        return []\n    roots = np.roots(p)", 'polyroots treats every poly1d of order 1 as constant')
+ben('C19', 'polytools.py', "    roots = np.roots(p)", "    if not isinstance(p, np.poly1d) and len(p) < 2:\n        return []\n    roots = np.roots(p)", 'polyroots short-cut for constant coefficient sequences only')
+brk('C16', P, "    def insert(self, index, value):\n        self._segments.insert(index, value)", "    def extend(self, values):\n        self._segments.extend(values)\n        self._end = self._segments[-1].end\n\n    def insert(self, index, value):\n        self._segments.insert(index, value)", 'bulk extend that keeps the length table')
